@@ -1,7 +1,7 @@
 (* Property C09 -- dot-segment normalisation.  Statements only. *)
 From Coq Require Import List NArith Bool Arith.
 Import ListNotations.
-Require Import V.Regex V.Parse V.PathSpec V.Splice V.Setters V.Iter V.PathQ V.ParseProofs V.C09Proofs V.C12Proofs.
+Require Import V.Regex V.Parse V.PathSpec V.Splice V.Setters V.Iter V.PathQ V.ParseProofs V.PathMut V.PathMutProofs V.C09Proofs V.C12Proofs V.NormProofs.
 Local Open Scope nat_scope.
 
 (* the normalized-segment iterator of the model (a stack of ranges, as in the Rust code) computes
@@ -34,6 +34,28 @@ Print Assumptions C09_idempotent.
 Theorem C09_render_segs : forall p, render (is_abs p) (segs p) = p.
 Proof. exact render_segs. Qed.
 Print Assumptions C09_render_segs.
+
+(* IN-PLACE normalisation through a path handle (PathMutImpl::normalize, index-level model): for every handle that
+   views a path v inside a buffer (before ++ v ++ after) the call returns -- no panic -- a handle viewing
+   normalize1 v in (before ++ normalize1 v ++ after): bytes before and after untouched, offsets coherent *)
+Theorem C09_normalize_in_place : forall h before v after, PInv h before v after -> none_of [QM; HASH] v ->
+  exists h', pm_normalize h = Some h' /\ PInv h' before (normalize1 (pm_start h =? 0) (pm_fa h) v) after /\
+             pm_fa h' = pm_fa h /\ pm_start h' = pm_start h.
+Proof. exact pm_normalize_refines. Qed.
+Print Assumptions C09_normalize_in_place.
+
+(* ... where normalize1 v is the rendering, with the absoluteness of v, of the specification walk `norm` on the
+   '/'-split of v, preceded by one "." segment exactly when the code writes its "./" shield (the rendering would
+   otherwise start with "//" without an authority, or with a colon segment at offset 0) *)
+Theorem C09_normalize_text : forall start0 fa v,
+  normalize1 start0 fa v = render (is_abs v) (shield_segs start0 fa v ++ norm (is_abs v) (segs v)).
+Proof. exact normalize1_is_render. Qed.
+Print Assumptions C09_normalize_text.
+
+(* normalisation never changes absoluteness *)
+Theorem C09_normalize_keeps_absoluteness : forall start0 fa v, is_abs (normalize1 start0 fa v) = is_abs v.
+Proof. exact normalize1_abs. Qed.
+Print Assumptions C09_normalize_keeps_absoluteness.
 
 Example C09_example : norm true (segs [47;97;47;46;47;98;47;46;46;47;46;46;47;46;46;47;99]%N) = [[99%N]].   (* /a/./b/../../../c *)
 Proof. vm_compute. reflexivity. Qed.
